@@ -1,4 +1,4 @@
-import Ledger.Proofs.ReplWF
+import Ledger.Proofs.ReplClean
 
 /-! Safety invariant `Inv` of the replication model: preserved by every step in the
 configurations `Good c` (candidate fix, or no `ResetPipeline`). -/
@@ -15,57 +15,76 @@ theorem Chain.covers {bs : List (Nat × Nat)} {hw k : Nat} (h : Chain bs hw) (h1
     · exact ⟨(lo, hi), List.mem_cons_self, by simp; omega, by simp; omega⟩
 
 theorem inv_init {c : Cfg} : Inv c State.init := by
-  constructor <;> simp [State.init]
-  exact Chain.nil
+  constructor <;> simp [State.init, AckedUpTo]
+  · omega
+  · intro _; exact Chain.nil
 
-theorem inv_finishOp {c : Cfg} {s : State} (g : Good c) (i : Inv c s) (hh : s.handler = none)
+/-- `Inv` with another handler. -/
+theorem inv_setHandler {c : Cfg} {s : State} {h : Handler} (i : Inv c s) (hl : h.last ≤ s.ackHW)
+    (he : ExpOk c h) : Inv c { s with handler := some h } := by
+  refine ⟨i.syncOrph, i.noResetPending, i.persisted_le, i.cur_le, i.orph_le, ?_, i.ack_le, i.deliv_le,
+    i.ackedPre, ?_, i.chain⟩
+  · intro h' e; simp at e; subst e; exact hl
+  · intro h' e; simp at e; subst e; exact he
+
+theorem inv_noHandler {c : Cfg} {s : State} (i : Inv c s) : Inv c { s with handler := none } := by
+  refine ⟨i.syncOrph, i.noResetPending, i.persisted_le, i.cur_le, i.orph_le, ?_, i.ack_le, i.deliv_le,
+    i.ackedPre, ?_, i.chain⟩ <;> (intro h' e; simp at e)
+
+theorem inv_finishOp {c : Cfg} {s : State} (g : Good c) (i : Inv c s) (_hh : s.handler = none)
     (hc : s.cur = none) : Inv c (finishOp s) := by
-  have h1 := i.syncOrph; have h2 := i.noResetPending; have h3 := i.persisted_le
-  have h4 := i.cur_le; have h5 := i.orph_le; have h6 := i.last_le; have h7 := i.ack_le
-  have h8 := i.deliv_le; have h9 := i.chain
   unfold finishOp
   split
   · exact i
-  · constructor <;> simp_all
+  · exact ⟨i.syncOrph, by simp, i.persisted_le, i.cur_le, i.orph_le, i.last_le, i.ack_le, i.deliv_le,
+      i.ackedPre, i.expOk, i.chain⟩
   · rename_i hp
     have hs : c.sync = true := by
       cases g with
       | inl h => exact h
-      | inr h => exact absurd hp (h2 h)
-    constructor <;> simp_all [startHandler, resetRow]
-    exact Chain.nil
-  · constructor <;> simp_all
+      | inr h => exact absurd hp (i.noResetPending h)
+    have ho := i.syncOrph hs
+    refine ⟨fun _ => ho, by simp [startHandler, resetRow], by simp [startHandler, resetRow], ?_, ?_, ?_,
+      by simp [startHandler, resetRow], by simp [startHandler, resetRow], ?_, ?_, ?_⟩
+    · intro v e; simp [startHandler, resetRow, hc] at e
+    · intro v e; simp [startHandler, resetRow, ho] at e
+    · intro h e; simp [startHandler, resetRow] at e; subst e; simp
+    · intro k h1 h2; simp [startHandler, resetRow] at h2; omega
+    · intro h e; simp [startHandler, resetRow] at e; subst e; simp [ExpOk]
+    · intro _; exact Chain.nil
+  · exact ⟨i.syncOrph, by simp, i.persisted_le, i.cur_le, i.orph_le, i.last_le, i.ack_le, i.deliv_le,
+      i.ackedPre, i.expOk, i.chain⟩
 
 theorem inv_exit {c : Cfg} {s : State} (g : Good c) (i : Inv c s) : Inv c (exitHandler c s) := by
-  have h1 := i.syncOrph; have h2 := i.noResetPending; have h3 := i.persisted_le
-  have h4 := i.cur_le; have h5 := i.orph_le; have h7 := i.ack_le
-  have h8 := i.deliv_le; have h9 := i.chain
+  have i0 := inv_noHandler i
   unfold exitHandler
   split
-  · apply inv_finishOp g _ rfl (by assumption)
-    constructor <;> simp_all
-  · split
+  · exact inv_finishOp g i0 rfl (by assumption)
+  · rename_i v hcur
+    have hv := i.cur_le v hcur
+    split
     · apply inv_finishOp g _ rfl rfl
-      constructor <;> simp_all
-      split <;> simp_all
-    · apply inv_finishOp g _ rfl rfl
-      constructor <;> simp_all
-      grind
-
-
-theorem inv_setHandler {c : Cfg} {s : State} {h : Handler} (i : Inv c s) (hl : h.last ≤ s.ackHW) :
-    Inv c { s with handler := some h } := by
-  have h1 := i.syncOrph; have h2 := i.noResetPending; have h3 := i.persisted_le
-  have h4 := i.cur_le; have h5 := i.orph_le; have h7 := i.ack_le
-  have h8 := i.deliv_le; have h9 := i.chain
-  constructor <;> simp_all
+      refine ⟨i0.syncOrph, i0.noResetPending, ?_, by simp, i0.orph_le, i0.last_le, i0.ack_le, i0.deliv_le,
+        i0.ackedPre, i0.expOk, i0.chain⟩
+      have := i.persisted_le
+      simp only []
+      split <;> assumption
+    · rename_i hns
+      apply inv_finishOp g _ rfl rfl
+      refine ⟨fun h => absurd h hns, i0.noResetPending, i0.persisted_le, by simp, ?_, i0.last_le, i0.ack_le,
+        i0.deliv_le, i0.ackedPre, i0.expOk, i0.chain⟩
+      intro w hw
+      simp only [List.mem_append, List.mem_singleton] at hw
+      rcases hw with hw | hw
+      · exact i.orph_le w hw
+      · subst hw; exact hv
 
 theorem inv_atSelect {c : Cfg} {s : State} {h : Handler} {next : Pc} (g : Good c) (i : Inv c s)
-    (hl : h.last ≤ s.ackHW) : Inv c (atSelect c s h next) := by
+    (hl : h.last ≤ s.ackHW) (he : ExpOk c { h with pc := next }) : Inv c (atSelect c s h next) := by
   unfold atSelect
   split
   · exact inv_exit g i
-  · exact inv_setHandler i hl
+  · exact inv_setHandler i hl he
 
 theorem inv_afterSend {c : Cfg} {s : State} {h : Handler} {more coin : Bool} (g : Good c) (i : Inv c s)
     (hl : h.last ≤ s.ackHW) : Inv c (afterSend c s h more coin) := by
@@ -73,96 +92,112 @@ theorem inv_afterSend {c : Cfg} {s : State} {h : Handler} {more coin : Bool} (g 
   split
   · split
     · exact inv_exit g i
-    · exact inv_setHandler i hl
-  · exact inv_atSelect g i hl
+    · exact inv_setHandler i hl (by simp [ExpOk])
+  · exact inv_atSelect g i hl (by simp [ExpOk])
 
 theorem inv_setPending {c : Cfg} {s : State} {op : Op} (i : Inv c s)
-    (hop : c.allowReset = false → op ≠ .reset) : Inv c { s with pending := some op } := by
-  have h1 := i.syncOrph; have h3 := i.persisted_le
-  have h4 := i.cur_le; have h5 := i.orph_le; have h6 := i.last_le; have h7 := i.ack_le
-  have h8 := i.deliv_le; have h9 := i.chain
-  constructor <;> simp_all
+    (hop : c.allowReset = false → op ≠ .reset) : Inv c { s with pending := some op } :=
+  ⟨i.syncOrph, fun h => by simpa using hop h, i.persisted_le, i.cur_le, i.orph_le, i.last_le, i.ack_le,
+    i.deliv_le, i.ackedPre, i.expOk, i.chain⟩
 
 theorem inv_requestStop {c : Cfg} {s : State} {h : Handler} {op : Op} (g : Good c) (i : Inv c s)
     (hh : s.handler = some h) (hop : c.allowReset = false → op ≠ .reset) :
     Inv c (requestStop c { s with pending := some op } h) := by
   have i1 := inv_setPending i hop
   have hl := i.last_le h hh
+  have he := i.expOk h hh
   unfold requestStop
   split
-  · exact inv_setHandler i1 hl
-  · exact inv_setHandler i1 hl
+  · rename_i hpc; exact inv_setHandler i1 hl (by simp [ExpOk, hpc])
+  · rename_i hpc; exact inv_setHandler i1 hl (by simp [ExpOk, hpc])
   · exact inv_exit g i1
 
 theorem inv_startHandler {c : Cfg} {s : State} {last : Nat} (i : Inv c s) (hl : last ≤ s.ackHW) :
     Inv c (startHandler s last) := by
-  have h1 := i.syncOrph; have h2 := i.noResetPending; have h3 := i.persisted_le
-  have h4 := i.cur_le; have h5 := i.orph_le; have h7 := i.ack_le
-  have h8 := i.deliv_le; have h9 := i.chain
-  constructor <;> simp_all [startHandler]
+  have := inv_setHandler (h := { pc := .atFetch, last := last, stopReq := false, zero := true }) i hl
+    (by simp [ExpOk])
+  exact ⟨this.syncOrph, this.noResetPending, this.persisted_le, this.cur_le, this.orph_le, this.last_le,
+    this.ack_le, this.deliv_le, this.ackedPre, this.expOk, this.chain⟩
 
 theorem inv_write {c : Cfg} {s : State} {ok : Bool} {v : Nat} (i : Inv c s) (hv : v ≤ s.ackHW) :
     Inv c (write ok v s) := by
-  have h1 := i.syncOrph; have h2 := i.noResetPending
-  have h4 := i.cur_le; have h5 := i.orph_le; have h6 := i.last_le; have h7 := i.ack_le
-  have h8 := i.deliv_le; have h9 := i.chain
   unfold write
   split
-  · constructor <;> simp_all
+  · exact ⟨i.syncOrph, i.noResetPending, hv, i.cur_le, i.orph_le, i.last_le, i.ack_le, i.deliv_le,
+      i.ackedPre, i.expOk, i.chain⟩
   · exact i
 
-theorem inv_deliver {c : Cfg} {s : State} {lo hi : Nat} (i : Inv c s) (h1 : lo ≤ s.delivHW) (h2 : lo < hi)
-    (h3 : hi ≤ s.nLogs) : Inv c (deliver s lo hi) := by
-  constructor
-  · exact i.syncOrph
-  · exact i.noResetPending
-  · exact i.persisted_le
-  · exact i.cur_le
-  · exact i.orph_le
-  · exact i.last_le
+theorem inv_setCur {c : Cfg} {s : State} {v : Nat} (i : Inv c s) (hv : v ≤ s.ackHW) :
+    Inv c { s with cur := some v } :=
+  ⟨i.syncOrph, i.noResetPending, i.persisted_le, fun w e => by simp at e; subst e; exact hv, i.orph_le,
+    i.last_le, i.ack_le, i.deliv_le, i.ackedPre, i.expOk, i.chain⟩
+
+theorem inv_clearCur {c : Cfg} {s : State} (i : Inv c s) : Inv c { s with cur := none } :=
+  ⟨i.syncOrph, i.noResetPending, i.persisted_le, fun w e => by simp at e, i.orph_le,
+    i.last_le, i.ack_le, i.deliv_le, i.ackedPre, i.expOk, i.chain⟩
+
+theorem inv_deliver {c : Cfg} {s : State} {lo hi : Nat} (i : Inv c s) (h1 : SingleChunk c → lo ≤ s.delivHW)
+    (h2 : lo < hi) (h3 : hi ≤ s.nLogs) : Inv c (deliver s lo hi) := by
+  refine ⟨i.syncOrph, i.noResetPending, i.persisted_le, i.cur_le, i.orph_le, i.last_le, ?_, ?_, i.ackedPre,
+    i.expOk, fun sc => Chain.cons (i.chain sc) (h1 sc) h2⟩
   · have := i.ack_le; simp only [deliver]; omega
   · have := i.deliv_le; simp only [deliver]; omega
-  · exact Chain.cons i.chain h1 h2
 
-theorem inv_ack {c : Cfg} {s : State} {hi : Nat} (i : Inv c s) (h : hi ≤ s.delivHW) : Inv c (ack s hi) := by
-  constructor
-  · exact i.syncOrph
-  · exact i.noResetPending
+theorem inv_ackItems {c : Cfg} {s : State} (i : Inv c s) (ids : List Nat) : Inv c (ackItems s ids) := by
+  refine ⟨i.syncOrph, i.noResetPending, i.persisted_le, i.cur_le, i.orph_le, i.last_le, i.ack_le, i.deliv_le,
+    ?_, ?_, i.chain⟩
+  · intro k h1 h2; exact List.mem_append_right _ (i.ackedPre k h1 h2)
+  · exact i.expOk
+
+theorem inv_ack {c : Cfg} {s : State} {hi : Nat} (i : Inv c s) (h : hi ≤ s.delivHW) (ha : AckedUpTo s hi) :
+    Inv c (ack s hi) := by
+  refine ⟨i.syncOrph, i.noResetPending, ?_, ?_, ?_, ?_, ?_, i.deliv_le, ?_, i.expOk, i.chain⟩
   · have := i.persisted_le; simp only [ack]; omega
   · intro v hv; have := i.cur_le v hv; simp only [ack]; omega
   · intro v hv; have := i.orph_le v hv; simp only [ack]; omega
   · intro h' hh; have := i.last_le h' hh; simp only [ack]; omega
   · have := i.ack_le; simp only [ack]; omega
-  · exact i.deliv_le
-  · exact i.chain
+  · intro k h1 h2
+    simp only [ack] at h2
+    by_cases hk : k ≤ s.ackHW
+    · exact i.ackedPre k h1 hk
+    · exact ha k h1 (by omega)
+
+theorem inv_exporterCall {c : Cfg} {s : State} {a b : Nat} (r : AcceptRes) (i : Inv c s)
+    (h1 : SingleChunk c → a ≤ s.delivHW) (h2 : a < b) (h3 : b ≤ s.nLogs) : Inv c (exporterCall s a b r) := by
+  cases r with
+  | ok => exact inv_ackItems (inv_deliver i h1 h2 h3) _
+  | fail => exact i
+  | lost => exact inv_deliver i h1 h2 h3
+  | reject off => exact inv_ackItems (inv_deliver i h1 h2 h3) _
+
+theorem inv_exportDone {c : Cfg} {s : State} {h : Handler} {hi : Nat} {more : Bool} (g : Good c) (i : Inv c s)
+    (hd : hi ≤ s.delivHW) (ha : AckedUpTo s hi) : Inv c (exportDone c s h hi more) := by
+  have i1 := inv_ack i hd ha
+  have hle : hi ≤ (ack s hi).ackHW := by simp only [ack]; omega
+  unfold exportDone
+  split
+  · exact inv_afterSend g (inv_setCur i1 hle) hle
+  · exact inv_setHandler i1 hle (by simp [ExpOk])
 
 
-theorem deliver_ack_comm (s : State) (lo hi : Nat) : deliver (ack s hi) lo hi = ack (deliver s lo hi) hi := rfl
+theorem singleChunk_end {c : Cfg} {lo hi : Nat} (sc : SingleChunk c) (h : hi ≤ lo + c.ps) :
+    chunkEnd c lo hi = hi := by
+  unfold chunkEnd
+  split
+  · rfl
+  · rcases sc with h0 | h0
+    · contradiction
+    · omega
 
-theorem inv_setCur {c : Cfg} {s : State} {v : Nat} (i : Inv c s) (hv : v ≤ s.ackHW) :
-    Inv c { s with cur := some v } := by
-  have h1 := i.syncOrph; have h2 := i.noResetPending; have h3 := i.persisted_le
-  have h5 := i.orph_le; have h6 := i.last_le; have h7 := i.ack_le
-  have h8 := i.deliv_le; have h9 := i.chain
-  constructor <;> simp_all
-
-theorem inv_clearCur {c : Cfg} {s : State} (i : Inv c s) : Inv c { s with cur := none } := by
-  have h1 := i.syncOrph; have h2 := i.noResetPending; have h3 := i.persisted_le
-  have h5 := i.orph_le; have h6 := i.last_le; have h7 := i.ack_le
-  have h8 := i.deliv_le; have h9 := i.chain
-  constructor <;> simp_all
-
-theorem inv_step {c : Cfg} {s s' : State} {l : Label} (g : Good c) (w : WF s) (i : Inv c s)
+theorem inv_step {c : Cfg} {s s' : State} {l : Label} (g : Good c) (w : WF s) (cl : Clean s) (i : Inv c s)
     (hs : step c s l = some s') : Inv c s' := by
   cases l with
   | append n =>
     simp only [step, Option.some.injEq] at hs
     subst hs
-    have h1 := i.syncOrph; have h2 := i.noResetPending; have h3 := i.persisted_le
-    have h4 := i.cur_le; have h5 := i.orph_le; have h6 := i.last_le; have h7 := i.ack_le
-    have h8 := i.deliv_le; have h9 := i.chain
-    constructor <;> simp_all
-    omega
+    exact ⟨i.syncOrph, i.noResetPending, i.persisted_le, i.cur_le, i.orph_le, i.last_le, i.ack_le,
+      by have := i.deliv_le; simp only []; omega, i.ackedPre, i.expOk, i.chain⟩
   | create =>
     simp only [step] at hs
     split at hs
@@ -170,10 +205,8 @@ theorem inv_step {c : Cfg} {s s' : State} {l : Label} (g : Good c) (w : WF s) (i
     case isTrue hg =>
       simp at hs; subst hs
       apply inv_startHandler _ (Nat.zero_le _)
-      have h1 := i.syncOrph; have h2 := i.noResetPending
-      have h4 := i.cur_le; have h5 := i.orph_le; have h6 := i.last_le; have h7 := i.ack_le
-      have h8 := i.deliv_le; have h9 := i.chain
-      constructor <;> simp_all
+      exact ⟨i.syncOrph, i.noResetPending, Nat.zero_le _, i.cur_le, i.orph_le, i.last_le, i.ack_le,
+        i.deliv_le, i.ackedPre, i.expOk, i.chain⟩
   | start =>
     simp only [step] at hs
     split at hs
@@ -208,9 +241,14 @@ theorem inv_step {c : Cfg} {s s' : State} {l : Label} (g : Good c) (w : WF s) (i
       · split at hs <;> simp at hs <;> subst hs
         · rename_i hn
           have hc := w.curNone hn
-          have h1 := i.syncOrph hs1; have h2 := i.noResetPending
-          constructor <;> simp_all [resetRow]
-          exact Chain.nil
+          have ho := i.syncOrph hs1
+          refine ⟨fun _ => ho, i.noResetPending, by simp [resetRow], ?_, ?_, ?_, by simp [resetRow],
+            by simp [resetRow], ?_, ?_, fun _ => Chain.nil⟩
+          · intro v e; simp [resetRow, hc] at e
+          · intro v e; simp [resetRow, ho] at e
+          · intro h e; simp [resetRow, hn] at e
+          · intro k h1 h2; simp [resetRow] at h2; omega
+          · intro h e; simp [resetRow, hn] at e
         · rename_i h hh
           exact inv_requestStop g i hh (by simp [hg.2])
   | sync =>
@@ -227,10 +265,8 @@ theorem inv_step {c : Cfg} {s s' : State} {l : Label} (g : Good c) (w : WF s) (i
     case isFalse => simp at hs
     case isTrue hg =>
       split at hs <;> simp at hs <;> subst hs
-      · have h1 := i.syncOrph; have h2 := i.noResetPending; have h3 := i.persisted_le
-        have h4 := i.cur_le; have h5 := i.orph_le; have h6 := i.last_le; have h7 := i.ack_le
-        have h8 := i.deliv_le; have h9 := i.chain
-        constructor <;> simp_all
+      · exact ⟨i.syncOrph, i.noResetPending, i.persisted_le, i.cur_le, i.orph_le, i.last_le, i.ack_le,
+          i.deliv_le, i.ackedPre, i.expOk, i.chain⟩
       · rename_i h hh
         exact inv_requestStop g i hh (by simp)
   | mgrStart =>
@@ -238,11 +274,9 @@ theorem inv_step {c : Cfg} {s s' : State} {l : Label} (g : Good c) (w : WF s) (i
     split at hs
     case isFalse => simp at hs
     case isTrue hg =>
-      have i1 : Inv c { s with mgrUp := true } := by
-        have h1 := i.syncOrph; have h2 := i.noResetPending; have h3 := i.persisted_le
-        have h4 := i.cur_le; have h5 := i.orph_le; have h6 := i.last_le; have h7 := i.ack_le
-        have h8 := i.deliv_le; have h9 := i.chain
-        constructor <;> simp_all
+      have i1 : Inv c { s with mgrUp := true } :=
+        ⟨i.syncOrph, i.noResetPending, i.persisted_le, i.cur_le, i.orph_le, i.last_le, i.ack_le,
+          i.deliv_le, i.ackedPre, i.expOk, i.chain⟩
       split at hs <;> simp at hs <;> subst hs
       · exact inv_startHandler i1 i.persisted_le
       · exact i1
@@ -254,8 +288,12 @@ theorem inv_step {c : Cfg} {s s' : State} {l : Label} (g : Good c) (w : WF s) (i
       have hl := i.last_le h hh
       split at hs
       · split at hs
-        · split at hs <;> simp at hs <;> subst hs <;> exact inv_atSelect g i hl
-        · simp at hs; subst hs; exact inv_atSelect g i hl
+        · split at hs <;> simp at hs <;> subst hs
+          · exact inv_atSelect g i hl (by
+              simp only [ExpOk, enterExport]
+              exact ⟨by omega, fun _ => trivial⟩)
+          · exact inv_atSelect g i hl (by simp [ExpOk])
+        · simp at hs; subst hs; exact inv_atSelect g i hl (by simp [ExpOk])
       · simp at hs
   | accept r =>
     simp only [step] at hs
@@ -264,22 +302,52 @@ theorem inv_step {c : Cfg} {s s' : State} {l : Label} (g : Good c) (w : WF s) (i
     · rename_i h hh
       have hl := i.last_le h hh
       split at hs
-      · rename_i lo hi more hpc
+      · rename_i lo hi more pos bad hpc
         have hok := w.pcOk h hh
         simp only [PcOk, hpc] at hok
-        have hd : lo ≤ s.delivHW := by have := i.ack_le; omega
-        have i1 : Inv c (deliver s lo hi) := inv_deliver i hd hok.2.1 hok.2.2
-        have i2 : Inv c (deliver (ack s hi) lo hi) := by
-          rw [deliver_ack_comm]
-          exact inv_ack i1 (by simp only [deliver]; omega)
+        have he := i.expOk h hh
+        simp only [ExpOk, hpc] at he
+        obtain ⟨hlo, hlt, hle, hlp, hph⟩ := hok
+        obtain ⟨hps, hsc⟩ := he
+        have hacked : bad = false → ∀ k, lo < k → k ≤ pos → k ∈ s.acked := by
+          intro hb0 k h1 h2
+          exact cl h lo hi more pos true hh (by rw [hpc, hb0]) k h1 h2
+        have hb := chunkEnd_bounds (c := c) hph
+        have f := exporterCall_fields s pos (chunkEnd c pos hi) r
+        have hda := i.ack_le
+        have i1 : Inv c (exporterCall s pos (chunkEnd c pos hi) r) :=
+          inv_exporterCall r i (fun sc => by have := hsc sc; omega) hb.1 (by omega)
+        have hl1 : h.last ≤ (exporterCall s pos (chunkEnd c pos hi) r).ackHW := by rw [f.2.2.2.2.2.2.2.2.1]; exact hl
         split at hs
+        · rename_i hcont
+          simp at hs; subst hs
+          refine inv_setHandler i1 hl1 ?_
+          simp only [ExpOk]
+          refine ⟨hps, ?_⟩
+          · intro sc
+            have := hsc sc
+            subst this
+            have := singleChunk_end sc hps
+            omega
         · split at hs
           · simp at hs; subst hs
-            exact inv_afterSend g (inv_setCur i2 (by simp [deliver, ack]; omega)) (by simp [deliver, ack]; omega)
-          · simp at hs; subst hs
-            exact inv_setHandler i2 (by simp [deliver, ack]; omega)
-        · simp at hs; subst hs; exact inv_atSelect g i hl
-        · simp at hs; subst hs; exact inv_atSelect g i1 (by simpa [deliver] using hl)
+            exact inv_atSelect g i1 hl1 (by simp [ExpOk]; exact hps)
+          · rename_i hnb
+            simp at hs; subst hs
+            simp at hnb
+            obtain ⟨hb0, hr⟩ := hnb
+            have hend : chunkEnd c pos hi = hi := by omega
+            cases r <;> simp [AcceptRes.isOk] at hr
+            rw [hend] at i1 ⊢
+            apply inv_exportDone g i1
+            · simp [exporterCall, ackItems, deliver]; omega
+            · intro k hk1 hk2
+              simp only [exporterCall, ackItems]
+              by_cases hk : k ≤ lo
+              · exact List.mem_append_right _ (i.ackedPre k hk1 (by omega))
+              · by_cases hkp : k ≤ pos
+                · exact List.mem_append_right _ (hacked hb0 k (by omega) hkp)
+                · exact List.mem_append_left _ (mem_idsOf.mpr ⟨by omega, hk2⟩)
       · simp at hs
   | persist k ok coin =>
     simp only [step] at hs
@@ -287,12 +355,10 @@ theorem inv_step {c : Cfg} {s s' : State} {l : Label} (g : Good c) (w : WF s) (i
     · simp at hs; subst hs
       rename_i hk
       apply inv_write
-      · have h1 := i.syncOrph; have h2 := i.noResetPending; have h3 := i.persisted_le
-        have h4 := i.cur_le; have h5 := i.orph_le; have h6 := i.last_le; have h7 := i.ack_le
-        have h8 := i.deliv_le; have h9 := i.chain
-        constructor <;> simp_all
-        intro v hv
-        exact h5 v (List.mem_of_mem_eraseIdx hv)
+      · refine ⟨?_, i.noResetPending, i.persisted_le, i.cur_le, ?_, i.last_le, i.ack_le, i.deliv_le,
+          i.ackedPre, i.expOk, i.chain⟩
+        · intro hsy; have := i.syncOrph hsy; simp [this]
+        · intro v hv; exact i.orph_le v (List.mem_of_mem_eraseIdx hv)
       · exact i.orph_le _ (List.getElem_mem hk)
     · split at hs
       · split at hs
@@ -317,15 +383,23 @@ theorem inv_step {c : Cfg} {s s' : State} {l : Label} (g : Good c) (w : WF s) (i
     · simp at hs; subst hs; exact i
     · rename_i h hh
       have hl := i.last_le h hh
+      have he := i.expOk h hh
       split at hs <;> simp at hs <;> subst hs
-      · exact inv_setHandler i hl
-      · exact inv_setHandler i hl
-      · exact inv_setHandler i hl
+      · exact inv_setHandler i hl (by simp [ExpOk])
+      · exact inv_setHandler i hl (by split <;> simp [ExpOk])
+      · rename_i lo hi more hpc
+        simp only [ExpOk, hpc] at he
+        exact inv_setHandler i hl (by
+          simp only [ExpOk, enterExport]
+          exact ⟨he, fun _ => trivial⟩)
+      · rename_i lo hi more pos bad hpc
+        simp only [ExpOk, hpc] at he
+        exact inv_setHandler i hl (by simpa [ExpOk] using he)
       · exact i
 
 theorem inv_reach {c : Cfg} {s : State} (g : Good c) (r : Reach c s) : Inv c s := by
   induction r with
   | init => exact inv_init
-  | step l r hs ih => exact inv_step g (wf_reach r) ih hs
+  | step l r hs ih => exact inv_step g (wf_reach r) (clean_reach r) ih hs
 
 end Ledger.Repl
